@@ -577,8 +577,36 @@ fn huge_one<N: ArrayLength>(d: u64, form: i128) {
     }
 }
 
+/// Arrays of zero-sized elements can be longer than isize::MAX elements: every borrowed view must still have
+/// exactly N elements (case kind 8: [8, log2 N, view]).
+#[cfg(target_pointer_width = "64")]
+fn huge_views<N: ArrayLength>(log2: i128) {
+    let mut arr: GenericArray<(), N> = unsafe { GenericArray::assume_init(GenericArray::<(), N>::uninit()) };
+    let base = &arr as *const GenericArray<(), N> as usize;
+    for view in 0..8i128 {
+        emit_case(&[8, log2, view]);
+        let (len, addr): (usize, usize) = match view {
+            0 => (arr.as_slice().len(), arr.as_slice().as_ptr() as usize),
+            1 => (arr.as_mut_slice().len(), arr.as_mut_slice().as_ptr() as usize),
+            2 => (Deref::deref(&arr).len(), Deref::deref(&arr).as_ptr() as usize),
+            3 => (DerefMut::deref_mut(&mut arr).len(), DerefMut::deref_mut(&mut arr).as_ptr() as usize),
+            4 => (Borrow::<[()]>::borrow(&arr).len(), Borrow::<[()]>::borrow(&arr).as_ptr() as usize),
+            5 => (AsRef::<[()]>::as_ref(&arr).len(), AsRef::<[()]>::as_ref(&arr).as_ptr() as usize),
+            6 => ((&arr).into_iter().len(), (&arr).into_iter().as_slice().as_ptr() as usize),
+            _ => (GenericArray::<(), N>::from_slice(arr.as_slice()).as_slice().len(), base),
+        };
+        emit_obs(&[(len == N::USIZE) as i128, (addr == base) as i128]);
+        if len != N::USIZE || addr != base {
+            emit_oracle(&format!("array of 2^{} zero-sized elements: view {} has {} elements at offset {}", log2, view, len, addr.wrapping_sub(base)));
+        }
+    }
+}
+
 #[cfg(target_pointer_width = "64")]
 fn huge_all() {
+    dist("huge_zst_views");
+    huge_views::<U4294967296>(32);
+    huge_views::<U9223372036854775808>(63);
     for d in [1u64, 2, 3] {
         for form in 0..6i128 {
             dist("huge_zst_slice");
